@@ -245,6 +245,30 @@ impl RoutingTable {
     }
 }
 
+#[cfg(mainline_verif)]
+impl RoutingTable {
+    pub fn verif_snapshot(&self) -> crate::verif::TableSnapshot {
+        crate::verif::TableSnapshot {
+            id: self.id,
+            buckets: self
+                .buckets
+                .iter()
+                .map(|(distance, bucket)| {
+                    (
+                        *distance,
+                        bucket.nodes.iter().map(crate::verif::node_snapshot).collect(),
+                    )
+                })
+                .collect(),
+            dht_size_estimates_count: self.dht_size_estimates_count,
+            dht_size_estimates_sum: self.dht_size_estimates_sum,
+            responders_samples_count: self.responders_samples_count,
+            responders_size_estimates_sum: self.responders_size_estimates_sum,
+            responders_subnets_sum: self.responders_subnets_sum,
+        }
+    }
+}
+
 pub struct RoutingTableIterator<'a> {
     bucket_index: u8,
     node_index: usize,
